@@ -21,7 +21,15 @@ from __future__ import annotations
 import codecs
 import json
 
-CAP = 15 * 1024  # min(timeout, 15.0) in transport._handle_sse_connection
+def _source_literals():
+    """connection cap and synthesised error codes as the source states them now"""
+    from . import core, translate_sse
+    vals, _bad = translate_sse.extract(core.REPO / "src" / "chuk_mcp")
+    return vals
+
+
+LIT = _source_literals()
+CAP = round(LIT["cap_ms"] * 1024 / 1000)  # min(timeout, 15.0) in transport._handle_sse_connection, in ticks
 T_DEFAULT = 2048
 
 ENDPOINT_FORMS = {
@@ -280,10 +288,10 @@ def establish_cases(budget, rng):
         # (e) slow announcement around the timeout; slow connection around the cap
         for a in (T_DEFAULT - 2, T_DEFAULT + 1, T_DEFAULT + 700):
             out.append(finish({"tie": tie, "conn": {"k": "ok", "at": 1}, "items": [EP], "t0": a, "reqs": [probe_req()]}))
-        for c_at in (CAP - 1, CAP + 1, CAP + 900):
-            out.append(finish({"tie": tie, "T": 20 * 1024, "conn": {"k": "ok", "at": c_at}, "items": [EP], "t0": c_at + 3, "reqs": [probe_req()]}))
-            out.append(finish({"tie": tie, "T": 20 * 1024, "conn": {"k": "status", "at": c_at, "code": 404}, "items": [], "reqs": [probe_req()]}))
-        for T in (512, 1024, 16 * 1024):
+        for c_at in (CAP - 3, CAP + 3, CAP + 900):
+            out.append(finish({"tie": tie, "T": CAP + 5 * 1024, "conn": {"k": "ok", "at": c_at}, "items": [EP], "t0": c_at + 3, "reqs": [probe_req()]}))
+            out.append(finish({"tie": tie, "T": CAP + 5 * 1024, "conn": {"k": "status", "at": c_at, "code": 404}, "items": [], "reqs": [probe_req()]}))
+        for T in (512, 1024, CAP + 1024):
             out.append(finish({"tie": tie, "T": T, "conn": {"k": "ok", "at": 1}, "items": [], "close": None, "reqs": []}))
             out.append(finish({"tie": tie, "T": T, "conn": {"k": "hang"}, "items": [], "reqs": []}))
     # seeded mixtures
